@@ -245,16 +245,19 @@ struct Stats {
 fn run_case(c: &Case, stats: &mut Stats) -> Vec<(String, String)> {
     let mut v: Vec<(String, String)> = Vec::new();
     let cfg = &c.cfg;
+    // a template without a directory part ("app.txt") puts the set into the working directory "."
+    let edir = cfg.effective_dir();
+    let edir = edir.as_str();
     let fs = FakeFs::new(c.idx * 31 + 7);
     if c.dir_exists || !c.pre.is_empty() {
-        fs.add_dir(&cfg.dir);
+        fs.add_dir(edir);
     }
     for (name, len, _) in &c.pre {
         let mut content = vec![b'o'; *len];
         if *len > 0 && len % 2 == 0 {
             *content.last_mut().unwrap() = b'\n';
         }
-        fs.add_file(&join_path(&cfg.dir, name), &content);
+        fs.add_file(&join_path(edir, name), &content);
     }
     stats.foreign_present += c.pre.iter().filter(|(n, _, _)| parse_member(n, &cfg.prefix, &cfg.ext).is_none()).count() as u64;
     let clock = FakeClock::new(c.start);
@@ -266,7 +269,7 @@ fn run_case(c: &Case, stats: &mut Stats) -> Vec<(String, String)> {
         fs.lock()
             .files
             .keys()
-            .filter(|p| dir_of(p) == cfg.dir)
+            .filter(|p| dir_of(p) == edir)
             .map(|p| file_name_of(p).to_string())
             .filter(|n| parse_member(n, &cfg.prefix, &cfg.ext).is_some())
             .collect()
@@ -326,7 +329,7 @@ fn run_case(c: &Case, stats: &mut Stats) -> Vec<(String, String)> {
                     last_reading = Some(reading);
                     let (period, _millis) = period_of(cfg.roll, reading);
                     let mut members = members_now(&fs);
-                    let size_before: Option<usize> = current.as_ref().and_then(|(n, _)| fs.lock().files.get(&join_path(&cfg.dir, n)).map(|f| f.len()));
+                    let size_before: Option<usize> = current.as_ref().and_then(|(n, _)| fs.lock().files.get(&join_path(edir, n)).map(|f| f.len()));
                     let log_from = fs.op_count();
                     let pending_bytes: usize = pending.iter().map(|b| b.len()).sum();
                     let res = rig.attempt(std::mem::take(&mut pending));
@@ -341,26 +344,26 @@ fn run_case(c: &Case, stats: &mut Stats) -> Vec<(String, String)> {
                     for op in &log {
                         match op.kind {
                             OpKind::Mkdir | OpKind::ReadDir => {
-                                if op.path != cfg.dir {
-                                    v.push((format!("C11:foreign-dir:{}", op.kind.name()), format!("{}: {} of {:?}, the set's directory is {:?}", when, op.kind.name(), op.path, cfg.dir)));
+                                if op.path != edir {
+                                    v.push((format!("C11:foreign-dir:{}", op.kind.name()), format!("{}: {} of {:?}, the set's directory is {:?}", when, op.kind.name(), op.path, edir)));
                                 }
                                 if !op.ok() {
                                     listing_or_delete_failed = true;
                                 }
                             }
                             OpKind::SyncDir => {
-                                if dir_of(&op.path) != cfg.dir {
+                                if dir_of(&op.path) != edir {
                                     v.push(("C11:foreign-dir:sync-dir".into(), format!("{}: synced the parent of {:?}", when, op.path)));
                                 }
                             }
                             _ => {
                                 let name = file_name_of(&op.path).to_string();
-                                let in_dir = dir_of(&op.path) == cfg.dir;
+                                let in_dir = dir_of(&op.path) == edir;
                                 let parsed = parse_member(&name, &cfg.prefix, &cfg.ext);
                                 if !in_dir || parsed.is_none() {
                                     v.push((
                                         format!("C11:foreign-file:{}:{}", op.kind.name(), if in_dir { foreign_class(&name, cfg) } else { "other-directory" }),
-                                        format!("{}: {} on {:?}, which is not a member of set {:?}.*.{:?} in {:?}", when, op.kind.name(), op.path, cfg.prefix, cfg.ext, cfg.dir),
+                                        format!("{}: {} on {:?}, which is not a member of set {:?}.*.{:?} in {:?}", when, op.kind.name(), op.path, cfg.prefix, cfg.ext, edir),
                                     ));
                                     continue;
                                 }
@@ -587,7 +590,7 @@ fn main() {
         r.nontrivial(&"replay");
         std::process::exit(r.finish());
     }
-    let n = args.n(200_000, 6_000_000);
+    let n = args.n(200_000, 4_000_000);
     r.set("cases", json!(n));
     par_cases(&mut r, &args, n, |i, r| evaluate(r, seed, i));
     std::process::exit(r.finish());
